@@ -334,6 +334,7 @@ class Sym:
     """symbolic evaluator of one function body"""
     def __init__(self, who, params, two):
         self.who, self.two = who, two
+        self.eager_sub = False
         self.env = {}
         for name, ty in params:
             if name == "self": self.env["self"] = ("ser", "DSelf")
@@ -533,6 +534,9 @@ class Sym:
                 if v[0] == "cbiter":            # the iterator is built here: its count expressions are evaluated now
                     out.append(("loop", v[1], None, v[2])); v = ("cbiter_built", len(out) - 1)
                 if s[1] == ("pid", "window", False) and v[0] != "n": self.fail("`window` rebound to something else than a usize")
+                # an unchecked subtraction evaluated by a `let` (not inside an iterator that is built into a loop statement here):
+                # the table has no statement for "evaluated at this point", so nothing that can panic or return may FOLLOW it
+                if v[0] != "cbiter_built" and "DnSub" in repr(v): self.eager_sub = True
                 self.bind(s[1], v, env)
             elif s[0] == "for":
                 it = self.iter(s[2], env)
@@ -556,11 +560,13 @@ class Sym:
                     if len(e[2]) != 2 or e[2][1][0] != "str": self.fail("assert! without a message")
                     msg = e[2][1][1]
                     if not MSG_OK.match(msg): self.fail("assert! message with unexpected characters")
+                    if self.eager_sub: self.fail("an assertion after a `let` that evaluates an unchecked subtraction")
                     out.append(("assert", self.cond(e[2][0], env), msg))
                 elif e[0] == "if":
                     th = e[2]
                     if e[3] is not None or th[2] is not None or th[1] != [("expr", ("return", None))]:
                         self.fail("an `if` that is not `if cond { return; }`")
+                    if self.eager_sub: self.fail("an early return after a `let` that evaluates an unchecked subtraction")
                     out.append(("retif", self.cond(e[1], env)))
                 else:
                     v = self.value(e, env)
